@@ -376,6 +376,52 @@ def agree_ref(ctx, fi, ref_src, title, what=('return', 'heap', 'substores'), rul
     return (r, I), (rr, IR)
 
 
+_CALLERS = {}
+
+
+def callers_of(ctx):
+    """short name of a package function -> set of short names of the functions that call it (resolved call sites)"""
+    key = id(ctx.prog)
+    if key in _CALLERS:
+        return _CALLERS[key]
+    from vstatic.argbind import resolve_callee
+    out = {}
+    for fi in ctx.prog.functions.values():
+        if isinstance(fi.node, ast.Lambda):
+            continue
+        for n in ast.walk(fi.node):
+            if isinstance(n, ast.Call):
+                rc = resolve_callee(ctx.prog, fi, n)
+                if rc is not None:
+                    owner = ctx.prog.enclosing_function(fi.module, n) or fi
+                    out.setdefault(rc[0].short, set()).add(owner.short)
+    _CALLERS[key] = out
+    return out
+
+
+def fold_new_helpers(ctx, writers):
+    """A function that did not exist when the rules were written (vstatic/baseline_functions.txt) and that is called
+    only from one function is a piece a refactoring extracted from that function: its stores are attributed to the
+    caller (repeatedly, so helpers of helpers fold too).  writers: dict short -> node."""
+    from vstatic.sva_call import BASELINE_FUNCS
+    cg = callers_of(ctx)
+    out = dict(writers)
+    for _ in range(4):
+        changed = False
+        for w in list(out):
+            if w in BASELINE_FUNCS:
+                continue
+            callers = cg.get(w, set()) - {w}
+            if len(callers) >= 1 and all(True for c in callers):
+                node = out.pop(w)
+                for c in callers:
+                    out.setdefault(c, node)
+                changed = True
+        if not changed:
+            break
+    return out
+
+
 def who_writes(ctx, attr, allowed, cls_family=None):
     """WHOWRITES: functions that store `.attr` (any receiver) must be within `allowed` (short quals)."""
     import ast
@@ -397,7 +443,7 @@ def who_writes(ctx, attr, allowed, cls_family=None):
                 owner = ctx.prog.enclosing_function(fi.module, n) or fi
                 if owner is fi:
                     writers.setdefault(fi.short, n)
-    return writers
+    return fold_new_helpers(ctx, writers)
 
 
 def dominates(e1, e2):
